@@ -176,6 +176,9 @@ def gen_scenario(seed, variant=None):
             t = t + rng.choice((0, 0, 0, 0.01, 0.05, 0.3, 1.0))
         actions.append([round(t, 4), "req", i, rng.random() < 0.85])
     horizon = max(H, max(a[0] for a in actions)) + 2.0
+    # once in a while a request the transport cannot write (text instead of bytes): it has to fail, once, and leave
+    # the others alone
+    unwritable = [i for i in ids if rng.random() < 0.04] if not (variant or {}).get("n_req") else []
     # things done from inside a request's completion callback (re-entrancy)
     on_fire = {}
     extra_ids = []
@@ -241,7 +244,7 @@ def gen_scenario(seed, variant=None):
     if end == "close_mid":
         actions.append([round(rng.uniform(0, horizon), 4), "close"])
     actions.sort(key=lambda a: a[0])
-    return dict(seed=seed, ids=ids, on_fire=on_fire, extra_ids=extra_ids, actions=actions, behaviour=behaviour, injections=injections, connect=connect,
+    return dict(seed=seed, ids=ids, on_fire=on_fire, extra_ids=extra_ids, unwritable=unwritable, actions=actions, behaviour=behaviour, injections=injections, connect=connect,
                 cuts=cuts, end=end, horizon=horizon,
                 latency=variant.get("latency", rng.choice((0.0, 0.0, 0.002, 0.05))),
                 chunk=variant.get("chunk", rng.choice(("whole", "whole", "bytes", "random", "coalesce", "prefix_split",
@@ -294,6 +297,8 @@ def run_scenario(sc, ghost=False, debug=False):
                 return
             marker = b"req-%d" % (rid & 0xFFFF)
             data = make_request_bytes(rid, marker)
+            if rid in sc.get("unwritable", ()):
+                data = data.decode("latin-1")  # text where bytes are required: the transport write raises
             rec = dict(issued=clock.seconds(), expect=expect, cancelled=None, fires=[], bytes=data, d=None,
                        after_close=tr.close_called is not None)
             tr.reqs[rid] = rec
